@@ -249,7 +249,15 @@ func cmdCheck(args []string) int {
 			continue
 		}
 		prog.Params = tc.Params
-		cfg := sym.ExploreConfig{Workers: 16, Solver: "z3", TimeoutMs: def(tc.TimeoutMs, 10000), StepBudget: def(tc.StepBudget, 2000000), ForkBudget: def(tc.ForkBudget, 400), MaxPaths: tc.MaxPaths}
+		solver2 := envOr("VERIF_SOLVER2", "z3-new")
+		if solver2 == "none" {
+			solver2 = ""
+		}
+		crossEvery := 200
+		if tier == "thorough" {
+			crossEvery = 20
+		}
+		cfg := sym.ExploreConfig{Workers: 16, Solver: "z3", Solver2: solver2, CrossEvery: crossEvery, TimeoutMs: def(tc.TimeoutMs, 10000), StepBudget: def(tc.StepBudget, 2000000), ForkBudget: def(tc.ForkBudget, 400), MaxPaths: tc.MaxPaths}
 		if n, _ := strconv.Atoi(os.Getenv("VERIF_WORKERS")); n > 0 {
 			cfg.Workers = n
 		}
@@ -715,6 +723,7 @@ func cmdReplay(args []string) int {
 func writeEvidence(id, tier string, seed int, cc *CheckCfg, results []*harnessResult, violations int, inconcl, lines []string, wall, loadSec float64) {
 	states, transitions, traces, obligations, discharged := 0, 0, 0, 0, 0
 	feasQ, oblQ := 0, 0
+	crossQ, crossAgree := 0, 0
 	solverTime := 0.0
 	funcs := map[string]int{}
 	stubs := map[string]int{}
@@ -739,6 +748,8 @@ func writeEvidence(id, tier string, seed int, cc *CheckCfg, results []*harnessRe
 		discharged += st.Discharged + (st.Asserts - st.SymAsserts)
 		feasQ += st.FeasQ
 		oblQ += st.OblQ
+		crossQ += st.CrossQ
+		crossAgree += st.CrossAgree
 		solverTime += st.SolverTime.Seconds()
 		for f, n := range st.Funcs {
 			funcs[f] = n
@@ -835,7 +846,7 @@ func writeEvidence(id, tier string, seed int, cc *CheckCfg, results []*harnessRe
 			"harnesses":   harnessInfo, "bounds": bounds,
 			"functions_encoded_repo": repoFuncs, "functions_encoded_dependencies": depFuncs,
 			"stubs_and_intrinsics": stubList,
-			"queries":              map[string]interface{}{"feasibility": feasQ, "obligation": oblQ, "solver": "z3 4.8.12 (/usr/bin/z3 -in), one process per worker"},
+			"queries":              map[string]interface{}{"feasibility": feasQ, "obligation": oblQ, "solver": "z3 4.8.12 (/usr/bin/z3 -in), one process per worker", "cross_checked_on_z3_5.1.0": crossQ, "cross_check_agreements": crossAgree},
 			"solver_time_s":        round2(solverTime), "load_and_ssa_build_s": round2(loadSec),
 			"vacuity_witnesses": witnesses, "inconclusive": inconcl, "report_lines": lines,
 		},
